@@ -1017,3 +1017,61 @@ Proof.
   split; [|split; [unfold in64, INT64_MIN, INT64_MAX; lia|discriminate]].
   exists [32%N], [45%N], [52; 50]%N. repeat split; try reflexivity; try discriminate. now right; right.
 Qed.
+
+(* ================================================================== 11. math.monte_carlo_pi: integer core *)
+Local Open Scope N_scope.
+
+Lemma mc_update_app s a b : mc_update (mc_update s a) b = mc_update s (a ++ b).
+Proof. unfold mc_update. now rewrite fold_left_app. Qed.
+
+Lemma data_monte_carlo_exact fixd bs off len :
+  data_monte_carlo fixd bs off len = option_map mc_counts (addressed fixd bs off len).
+Proof.
+  unfold data_monte_carlo, mc_counts.
+  rewrite (range_walk_generic mc_update fixd mc_update_app (fun _ => eq_refl)).
+  now destruct (addressed fixd bs off len).
+Qed.
+
+Lemma mc_update_six a b c d e f r m i :
+  mc_update ([], m, i) (a :: b :: c :: d :: e :: f :: r) =
+  mc_update ([], m + 1, if mc_hit a b c d e f then i + 1 else i) r.
+Proof. reflexivity. Qed.
+
+Lemma mc_update_spec n : forall l m i, (length l <= n)%nat ->
+  let '(_, m', i') := mc_update ([], m, i) l in (m', i') = (m + fst (mc_spec l), i + snd (mc_spec l)).
+Proof.
+  induction n as [|n IH]; intros l m i Hl.
+  - destruct l; [|cbn in Hl; lia]. cbn. now rewrite !N.add_0_r.
+  - destruct l as [|a [|b [|c [|d [|e [|f r]]]]]]; try (cbn; now rewrite !N.add_0_r).
+    rewrite mc_update_six. cbn [mc_spec].
+    specialize (IH r (m + 1) (if mc_hit a b c d e f then i + 1 else i)).
+    destruct (mc_update ([], m + 1, if mc_hit a b c d e f then i + 1 else i) r) as [[p' m'] i'].
+    rewrite IH by (cbn [length] in Hl; lia).
+    destruct (mc_spec r) as [ms is_]. cbn [fst snd].
+    destruct (mc_hit a b c d e f); f_equal; lia.
+Qed.
+
+Lemma mc_counts_spec l : mc_counts l = mc_spec l.
+Proof.
+  unfold mc_counts, mc0. pose proof (mc_update_spec (length l) l 0 0 (le_n _)) as H.
+  destruct (mc_update ([], 0, 0) l) as [[p m] i]. rewrite H. rewrite !N.add_0_l. now destruct (mc_spec l).
+Qed.
+
+(* the number of complete groups *)
+Lemma mc_spec_count n : forall l, (length l <= n)%nat -> fst (mc_spec l) = N.of_nat (length l / 6).
+Proof.
+  induction n as [|n IH]; intros l Hl.
+  - destruct l; [reflexivity|cbn in Hl; lia].
+  - destruct l as [|a [|b [|c [|d [|e [|f r]]]]]]; try reflexivity.
+    cbn [mc_spec]. specialize (IH r ltac:(cbn [length] in Hl; lia)).
+    destruct (mc_spec r) as [ms is_]. cbn [fst] in *. rewrite IH.
+    change (length (a :: b :: c :: d :: e :: f :: r)) with (6 + length r)%nat.
+    replace (6 + length r)%nat with (length r + 1 * 6)%nat by lia.
+    rewrite Nat.div_add by lia. lia.
+Qed.
+
+Example ex_mc_on_circle :   (* points exactly on the circle are hits; one step outside is not; trailing bytes are ignored *)
+  mc_counts [255; 255; 255; 0; 0; 0] = (1, 1) /\ mc_counts [153; 153; 153; 204; 204; 204; 7; 7] = (1, 1) /\
+  mc_counts [255; 255; 255; 0; 0; 1] = (1, 0) /\ mc_counts [153; 153; 154; 204; 204; 204] = (1, 0) /\
+  mc_counts [255; 255; 254; 0; 0; 0; 255; 255; 255; 255; 255; 255] = (2, 1) /\ mc_counts [1; 2; 3; 4; 5] = (0, 0).
+Proof. repeat split. Qed.
